@@ -237,6 +237,12 @@ theorem setPc_hasSeq {l : Loc} {p p' : PC} (hp : l.pc = p) (ok : PC.FrameOK0 p p
   obtain ⟨a, b⟩ := (hasSeq_iff _).1 hh
   exact ⟨(hasSeq_iff _).2 ⟨a, fun c => b (ok.2.1 (hp ▸ c))⟩, rfl⟩
 
+theorem setPc_hasSeq' {l : Loc} (p' : PC) (hp : l.pc ≠ .idle) :
+    ({ l with pc := p' } : Loc).hasSeq = true → l.hasSeq = true ∧ ({ l with pc := p' } : Loc).seq = l.seq := by
+  intro hh
+  obtain ⟨a, _⟩ := (hasSeq_iff _).1 hh
+  exact ⟨(hasSeq_iff _).2 ⟨a, hp⟩, rfl⟩
+
 /-- `serve()` returns -/
 theorem thrOK_leaveServe {s : St} {t : Tid} {l : Loc}
     (h1 : l.bg = false → l.seq ∈ s.issued)
@@ -350,5 +356,103 @@ theorem GlobOK.updAt {s s' : St} (h : GlobOK s) (q : Seq)
     by_cases hr : r = q
     · subst hr; exact hrdy
     · simpa only [e_cells r hr, e_compl r hr] using h.ready_compl r
+
+theorem setCell_reg_of (s : St) (q : Seq) (c : Cell) (r : Seq) (hc : c.reg = (s.cells q).reg) :
+    ((setCell s q c).cells r).reg = (s.cells r).reg := by
+  rw [setCell_cells]; split
+  · rename_i e; subst e; exact hc
+  · rfl
+
+theorem setCell_ready_of (s : St) (q : Seq) (c : Cell) (r : Seq) (hc : c.ready = (s.cells q).ready) :
+    ((setCell s q c).cells r).ready = (s.cells r).ready := by
+  rw [setCell_cells]; split
+  · rename_i e; subst e; exact hc
+  · rfl
+
+theorem setCell_isExc_of (s : St) (q : Seq) (c : Cell) (r : Seq) (hc : c.isExc = (s.cells q).isExc) :
+    ((setCell s q c).cells r).isExc = (s.cells r).isExc := by
+  rw [setCell_cells]; split
+  · rename_i e; subst e; exact hc
+  · rfl
+
+theorem setCell_obj_of (s : St) (q : Seq) (c : Cell) (r : Seq) (hc : c.obj = (s.cells q).obj) :
+    ((setCell s q c).cells r).obj = (s.cells r).obj := by
+  rw [setCell_cells]; split
+  · rename_i e; subst e; exact hc
+  · rfl
+
+theorem setCell_ttl_of (s : St) (q : Seq) (c : Cell) (r : Seq) (hc : c.ttl = (s.cells q).ttl) :
+    ((setCell s q c).cells r).ttl = (s.cells r).ttl := by
+  rw [setCell_cells]; split
+  · rename_i e; subst e; exact hc
+  · rfl
+
+theorem freshSeq_of_eq {s s' : St} {r : Seq} (h : freshSeq s r) (e1 : s'.cells r = s.cells r)
+    (e2 : s'.answer r = s.answer r) (e3 : r ∈ s'.outstanding → r ∈ s.outstanding) (e4 : s'.popper r = s.popper r)
+    (e5 : s'.completions r = s.completions r) : freshSeq s' r := by
+  obtain ⟨a, b, c, d, e⟩ := h
+  exact ⟨e1 ▸ a, e2 ▸ b, fun x => c (e3 x), e4 ▸ d, e5 ▸ e⟩
+
+/-- what a thread in `AsyncResult.__call__` knows about the cell it popped -/
+theorem ThrOK.compl_facts {s : St} {t : Tid} {l : Loc} (h : ThrOK s t l) (hc : l.pc.completing = true)
+    {q : Seq} (hcb : l.cb = some q) :
+    ∃ f, l.data = some f ∧ f.seq = q ∧ s.popper q = some t ∧ (s.cells q).reg = false ∧ s.completions q = 0 ∧
+      (s.cells q).ready = false ∧ ((l.pc = .d4 ∨ l.pc = .d5) → (s.cells q).isExc = some f.exc) ∧
+      (l.pc = .d5 → (s.cells q).obj = some f.val) := by
+  obtain ⟨q0, f, c1, c2, c3, c4, c5, c6, c7, c8, c9⟩ := h.completing hc
+  rw [hcb] at c1
+  cases c1
+  exact ⟨f, c2, c3, c4, c5, c6, c7, c8, c9⟩
+
+/-- thread `t` is completing the cell of `q` (it popped it) and changes that cell; another thread `u` does not care -/
+theorem ThrOK.other_completing {s s' : St} {t u : Tid} {l : Loc} {q : Seq} (h : ThrOK s u l) (hu : u ≠ t)
+    (hpop : s.popper q = some t)
+    (e_iss : s'.issued = s.issued) (e_ans : s'.answer = s.answer) (e_out : s'.outstanding = s.outstanding)
+    (e_pop : s'.popper = s.popper) (e_now : s'.now = s.now)
+    (e_cells : ∀ r, r ≠ q → s'.cells r = s.cells r) (e_compl : ∀ r, r ≠ q → s'.completions r = s.completions r)
+    (e_rdy : (s.cells q).ready = true → (s'.cells q).ready = true)
+    (e_ttl : (s'.cells q).ttl = (s.cells q).ttl) : ThrOK s' u l := by
+  have hne : ∀ r, s.popper r = some u → r ≠ q := fun r hr e => by
+    subst e; rw [hpop] at hr; cases hr; exact hu rfl
+  refine h.transfer (fun _ x => e_iss ▸ x) ?_ ?_ ?_ (fun _ _ x => e_ans ▸ x) ?_ ?_ ?_ (e_now ▸ Nat.le_refl _)
+  · intro _ _ fr
+    have : l.seq ≠ q := fun e => by
+      have := fr.2.2.2.1
+      rw [e, hpop] at this; cases this
+    exact freshSeq_of_eq fr (e_cells _ this) (by rw [e_ans]) (fun x => e_out ▸ x) (by rw [e_pop]) (e_compl _ this)
+  · intro _ _ a b
+    rw [e_ans, e_out]; exact ⟨a, b⟩
+  · intro r hr
+    have := hne r hr
+    rw [e_pop, e_cells r this, e_compl r this]
+    exact ⟨hr, rfl, rfl, rfl, rfl, rfl⟩
+  · intro x
+    by_cases e : l.seq = q
+    · rw [e] at x ⊢; exact e_rdy x
+    · rw [e_cells _ e]; exact x
+  · intro _ a b
+    rw [e_pop] at b
+    rw [e_cells _ (hne _ b)] at a
+    exact ⟨a, b⟩
+  · intro _ _
+    by_cases e : l.seq = q
+    · rw [e]; exact e_ttl
+    · rw [e_cells _ e]
+
+/-- assemble `InvS'` after a step of thread `t` in which no thread acquires a sequence number -/
+theorem InvS'.step' {s s' : St} (t : Tid) (l' : Loc) (h : InvS' s) (hl : s'.loc = (setLoc s t l').loc)
+    (hseq : l'.hasSeq = true → (s.loc t).hasSeq = true ∧ l'.seq = (s.loc t).seq)
+    (glob : GlobOK s') (ht : ThrOK s' t l') (hu : ∀ u, u ≠ t → ThrOK s' u (s.loc u)) : InvS' s' where
+  glob := glob
+  thr u := by
+    by_cases e : u = t
+    · subst e; rw [hl, setLoc_loc_self]; exact ht
+    · rw [hl, setLoc_loc_ne _ _ e]; exact hu u e
+  seq_inj := by
+    apply seq_inj_frame _ h.seq_inj
+    intro u
+    by_cases e : u = t
+    · subst e; rw [hl, setLoc_loc_self]; exact hseq
+    · rw [hl, setLoc_loc_ne _ _ e]; exact fun x => ⟨x, rfl⟩
 
 end Rpyc.Conc.Serve
